@@ -111,12 +111,18 @@ def run_kernel_item(item):
                             solver_timeout_ms=item.get('feas_ms', 3000))
         eng.loop_limits.update(item.get('loop_limits', {}))
         eng.deadline = eng.ctx.deadline = time.time() + item.get('budget_s', 900)
+        eng.params = item.get('params')
+        out['params'] = item.get('params')
         if item.get('contracts'):
             from llsym import contracts
             out['contracts'] = contracts.install(eng)
         if item.get('ldt_contracts'):
             from llsym import contracts
             out['contracts'] = out.get('contracts', []) + contracts.install_ldt(eng)
+        if item.get('classes'):
+            from llsym import contracts
+            eng.intercepts[contracts.LD_FOR_EPOCH_SECONDS] = contracts.classes_contract(item['classes'])
+            eng.resolve_bools = True
         if item.get('year_contract'):
             from llsym import contracts
             y, lo, hi = item['year_contract']
@@ -339,21 +345,21 @@ class KernelCheck(object):
                     self.inconclusive.append('%s: obligation %s %s -> %s %s' % (
                         r['name'], o['kind'], o['tag'], o['status'], o.get('detail', '')))
 
-    def _replay(self, entry, args, nondet, sanitize):
+    def _replay(self, entry, args, nondet, sanitize, params=None):
         binp = self.native(sanitize)
-        return build.run_native(binp, entry, args, [v for (_, v, _) in nondet])
+        return build.run_native(binp, entry, args, [v for (_, v, _) in nondet], params=params)
 
     def _judge_sat(self, r, o):
         nondet = o['nondet']
         if o['kind'] == 'assert':
-            rc, lines, err = self._replay(r['entry'], r['args'], nondet, False)
+            rc, lines, err = self._replay(r['entry'], r['args'], nondet, False, r.get('params'))
             confirmed = ('ASSERT-FAILED ' + o['tag']) in lines
             key = '%s:assert:%s' % (r['entry'], o['tag'])
             what = 'assertion %s fails in %s%s with %s' % (o['tag'], r['entry'], tuple(r['args']),
                                                            [(n, v) for (n, v, _) in nondet])
         elif o['kind'] == 'contract-pre':
             # the contract does not cover this input: fall back to the real code on the concrete input
-            rc, lines, err = self._replay(r['entry'], r['args'], nondet, False)
+            rc, lines, err = self._replay(r['entry'], r['args'], nondet, False, r.get('params'))
             failed = [ln.split(' ', 1)[1] for ln in lines if ln.startswith('ASSERT-FAILED ')]
             obs = parse_obs(lines)
             nd = dict((n, v) for (n, v, _) in nondet)
@@ -371,14 +377,14 @@ class KernelCheck(object):
                                      'cover this call)' % (r['name'], o['tag'], [(n, v) for (n, v, _) in nondet]))
             return
         elif o['kind'] == 'spec':
-            rc, lines, err = self._replay(r['entry'], r['args'], nondet, False)
+            rc, lines, err = self._replay(r['entry'], r['args'], nondet, False, r.get('params'))
             obs = parse_obs(lines)
             confirmed = rc == 0 and bool(self.spec_concrete(r, o['tag'], dict((n, v) for (n, v, _) in nondet), obs))
             key = '%s:spec:%s' % (r['entry'], o['tag'])
             what = 'specification %s violated in %s%s with %s: observed %s' % (
                 o['tag'], r['entry'], tuple(r['args']), [(n, v) for (n, v, _) in nondet], obs)
         else:
-            rc, lines, err = self._replay(r['entry'], r['args'], nondet, True)
+            rc, lines, err = self._replay(r['entry'], r['args'], nondet, True, r.get('params'))
             confirmed = rc not in (0, 3, 4) and ('runtime error' in err or 'AddressSanitizer' in err or rc == 'timeout')
             key = '%s:UB:%s' % (r['entry'], site_key(o['tag']))
             what = 'undefined behaviour (sanitizer trap) at %s in %s%s with %s' % (
@@ -392,7 +398,7 @@ class KernelCheck(object):
             self.inconclusive.append('%s: defect %s with solver status %s' % (r['name'], d['msg'], d.get('solver')))
             return
         nondet = d['model']
-        rc, lines, err = self._replay(r['entry'], r['args'], nondet, True)
+        rc, lines, err = self._replay(r['entry'], r['args'], nondet, True, r.get('params'))
         confirmed = rc not in (0, 3, 4) and ('runtime error' in err or 'AddressSanitizer' in err
                                              or rc == 'timeout' or (isinstance(rc, int) and rc < 0))
         key = '%s:%s:%s' % (r['entry'], d['kind'], site_key(d['where']))
